@@ -138,6 +138,35 @@ def stage_lookup_lists(ctx, e, nidx):
             ctx.count(f"lookup-list:{label}:control-{'changed' if outcomes[0][2] else 'unchanged'}")
 
 
+def stage_file_verify_grid(ctx, e):
+    """`file verify FILE NODE` over every state of the copy record (has_file x wants_file, and no record at all).  Its help
+    text: "If there is no copy of FILE on NODE, an error is returned" - a record that says the file is gone and not wanted
+    back (has_file N, wants_file M or N) is no copy; a missing file that is wanted (N / Y) may be re-verified.  Refused
+    invocations, and those with nothing to do, leave the index unchanged."""
+    from alpenhorn import db
+    for has, wants in [(h, w_) for h in "YMXN" for w_ in "YMN"] + [(None, None)]:
+        ix = cliharness.Index(e, random.Random(4242))
+        f, n = ix.files[0], ix.nodes[0]
+        db.ArchiveFileCopy.delete().where(db.ArchiveFileCopy.file == f.id, db.ArchiveFileCopy.node == n.id).execute()
+        if has is not None:
+            db.ArchiveFileCopy.create(file=f, node=n, has_file=has, wants_file=wants)
+        argv = ["file", "verify", f"{f.acq.name}/{f.name}", n.name]
+        before = cliharness.full_dump()
+        rc, out, exc = e.cli(argv)
+        after = cliharness.full_dump()
+        no_copy = has is None or (has == "N" and wants != "Y")
+        ctx.case(("file-verify-grid", has, wants), nontrivial=True)
+        ctx.count(f"file-verify:{'no-copy' if no_copy else 'copy'}:{'changed' if after != before else 'unchanged'}")
+        if no_copy and (after != before or rc == 0):
+            ctx.violation("mutated:file verify:no-copy", f"`alpenhorn {' '.join(argv)}` with the copy record "
+                          f"{'absent' if has is None else f'has_file={has} wants_file={wants}'} (there is no copy of the file on the node) "
+                          f"exited {rc} and {'changed' if after != before else 'did not change'} the index",
+                          {"kind": "cli", "argv": argv, "stdin": None, "seed": 4242, "exit": rc, "state": [has, wants]})
+        elif rc != 0 and after != before:
+            ctx.violation("mutated:file verify:refused", f"`alpenhorn {' '.join(argv)}` exited {rc} but changed the index",
+                          {"kind": "cli", "argv": argv, "seed": 4242, "exit": rc})
+
+
 def run(ctx):
     ok = common.proof_stage(ctx, MODULE)
     rng = ctx.rng
@@ -203,6 +232,7 @@ def run(ctx):
                                       {"kind": "cli-fault", "argv": argv, "stdin": stdin, "seed": seed, "k": k, "exit": rc2})
         stage_check_mode_grid(ctx, e)
         stage_lookup_lists(ctx, e, 6 if ctx.quick() else 60)
+        stage_file_verify_grid(ctx, e)
         stage_bulk(ctx, e, 260 if ctx.quick() else 1200)
     outs = common.Driver().batch(model_lines) if model_lines else []
     for line, (argv, changed, rc), o in zip(model_lines, model_meta, outs):
